@@ -5,6 +5,7 @@ package tlbdesc
 // codec behaves like that descriptor is what the correspondence run checks.
 
 import (
+	"math/big"
 	"reflect"
 	"strings"
 
@@ -281,13 +282,28 @@ func (d *Desc) randDict(r *prng.R, dst reflect.Value, depth int) sx.V {
 	n := 0
 	if !r.Chance(40) && depth < 5 {
 		n = 1 + r.Intn(3)
+		if r.Chance(30) {
+			n = 3 + r.Intn(4)
+		}
 	}
 	for try := 0; try < 3; try++ {
 		h := reflect.New(d.T)
 		put := h.MethodByName("Put")
+		var base *big.Int
 		for i := 0; i < n; i++ {
 			k := reflect.New(d.DK.T).Elem()
 			d.DK.Rand(r, k, depth+6)
+			// integer keys that agree on everything but their lowest bits (the last partial
+			// byte of a 15-bit key, the bit that decides the order of two neighbours)
+			if d.DK.K == KUint && d.DK.W > 1 && d.DK.W <= 64 {
+				if base == nil {
+					base = new(big.Int).SetUint64(k.Uint())
+				} else if r.Chance(60) {
+					low := uint(1 + r.Intn(minI(7, d.DK.W-1)))
+					x := (base.Uint64() &^ (uint64(1)<<low - 1)) | (r.U64() & (uint64(1)<<low - 1))
+					k.SetUint(x)
+				}
+			}
 			val := reflect.New(d.DV.T).Elem()
 			d.DV.Rand(r, val, depth+6)
 			put.Call([]reflect.Value{k, val})
@@ -301,4 +317,54 @@ func (d *Desc) randDict(r *prng.R, dst reflect.Value, depth int) sx.V {
 	}
 	dst.Set(reflect.Zero(d.T))
 	return tag("maybe")
+}
+
+func minI(a, b int) int {
+	if a < b {
+		return a
+	}
+	return b
+}
+
+// PermuteDict reorders the (unexported) key and value slices of a tlb.HashmapE / Hashmap
+// value in place, with one permutation for both: the same mapping handed over in another
+// slice order, as NewHashmapE(keys, values) accepts it.  Returns the number of entries.
+func PermuteDict(r *prng.R, h reflect.Value) int {
+	if h.Kind() != reflect.Struct || !h.CanAddr() {
+		return 0
+	}
+	m := h
+	if f := h.Field(0); h.NumField() == 1 && f.Kind() == reflect.Struct {
+		m = hidden(h, 0) // HashmapE{m Hashmap}
+	}
+	if m.NumField() < 2 || m.Field(0).Kind() != reflect.Slice || m.Field(1).Kind() != reflect.Slice {
+		return 0
+	}
+	keys, vals := hidden(m, 0), hidden(m, 1)
+	n := keys.Len()
+	if n != vals.Len() || n < 2 {
+		return n
+	}
+	// copy, so that a slice shared with another value is not disturbed
+	k2 := reflect.MakeSlice(keys.Type(), n, n)
+	v2 := reflect.MakeSlice(vals.Type(), n, n)
+	reflect.Copy(k2, keys)
+	reflect.Copy(v2, vals)
+	ks, vs := reflect.Swapper(k2.Interface()), reflect.Swapper(v2.Interface())
+	switch r.Intn(3) {
+	case 0: // descending
+		for i, j := 0, n-1; i < j; i, j = i+1, j-1 {
+			ks(i, j)
+			vs(i, j)
+		}
+	default:
+		for i := n - 1; i > 0; i-- {
+			j := r.Intn(i + 1)
+			ks(i, j)
+			vs(i, j)
+		}
+	}
+	keys.Set(k2)
+	vals.Set(v2)
+	return n
 }
